@@ -43,11 +43,42 @@ Transform ==
      /\ cnt' = BumpAll(cnt, {"transforms", "kind:" \o E.kind, "family:" \o E.family}
                   \cup (IF E.opt = 1 THEN {"non_default_options"} ELSE {}) \cup (IF Has(E, "derived") THEN {"derived_pure_checked"} ELSE {}))
 
+\* Quantities that mixture algorithms derive from sub-models (C09, last clause): the pure-liquid reference of the activity coefficients and the
+\* solvent equilibrium behind Henry constants must be those of the sub-model built directly from the records; Henry constants are indexed by the
+\* solutes in component order, and reversing the component order of the model reverses them.
+Derived ==
+  /\ Ev("Derived")
+  /\ LET info == <<E.model, "derived">>
+         n == E.n
+     IN
+     /\ (Has(E, "activity") =>
+           LET a == E.activity IN
+           \A i \in 1..n :
+             /\ (IF FIsNaN(a.ln_phi_pure_direct[i]) \/ FIsNaN(a.ln_phi_pure_lib[i])
+                 THEN Report("C09.derived_pure_quantities", <<info, "pure liquid reference exists in both or neither", i, l>>, FIsNaN(a.ln_phi_pure_direct[i]) = FIsNaN(a.ln_phi_pure_lib[i]) \/ \E j \in 1..n : FIsNaN(a.ln_phi_pure_direct[j]))
+                 ELSE /\ Chk("C09.derived_pure_quantities", <<info, "ln phi of the pure liquid", i, l>>, a.ln_phi_pure_lib[i], a.ln_phi_pure_direct[i], RtolSolver, FAdd(FAbs(a.ln_phi_pure_direct[i]), "1"), "0")
+                      /\ Chk("C09.derived_pure_quantities", <<info, "activity coefficient", i, l>>, a.ln_gamma_lib[i], FSub(a.ln_phi[i], a.ln_phi_pure_direct[i]), RtolSolver,
+                             FAdd(FAdd(FAbs(a.ln_phi[i]), FAbs(a.ln_phi_pure_direct[i])), "1"), "0")))
+     /\ \A q \in 1..Len(E.henry) :
+          LET h == E.henry[q]
+              solutes == SelectSeq([k \in 1..n |-> k], LAMBDA k : k \notin {h.solvent[j] : j \in 1..Len(h.solvent)})
+              Direct(k) == FMul(FExp(FSub(h.ln_phi_liquid[solutes[k]], h.ln_phi_vapor[solutes[k]])), h.p)
+          IN /\ Report("C09.derived_pure_quantities", <<info, "Henry constants exist for the sub-model's equilibrium", h.solvent, h.lib_ok, h.direct_ok, l>>, h.lib_ok = h.direct_ok)
+             /\ Report("C09.perm", <<info, "Henry constants of the reversed model exist", h.solvent, h.lib_ok, h.rev_ok, l>>, h.lib_ok = h.rev_ok)
+             /\ ((h.lib_ok /\ h.direct_ok) =>
+                   /\ Report("C09.derived_pure_quantities", <<info, "one Henry constant per solute", h.solvent, Len(h.lib), l>>, Len(h.lib) = Len(solutes))
+                   /\ (Len(h.lib) = Len(solutes) =>
+                         \A k \in 1..Len(solutes) : Chk("C09.derived_pure_quantities", <<info, "Henry constant", h.solvent, solutes[k], l>>, h.lib[k], Direct(k), RtolSolver, FAbs(Direct(k)), "0")))
+             /\ ((h.lib_ok /\ h.rev_ok /\ Len(h.lib) = Len(h.lib_reversed_model)) =>
+                   \A k \in 1..Len(h.lib) : Chk("C09.perm", <<info, "Henry constant, reversed component order", h.solvent, k, l>>, Reverse(h.lib_reversed_model)[k], h.lib[k], RtolSolver, FAbs(h.lib[k]), "0"))
+  /\ cnt' = BumpAll(BumpBy(BumpBy(cnt, "henry_constants", Len(SelectSeq(E.henry, LAMBDA h : h.lib_ok /\ h.direct_ok))), "henry_mixed_solvent", Len(SelectSeq(E.henry, LAMBDA h : h.lib_ok /\ Len(h.solvent) > 1))),
+                    {"derived_events", "family:" \o E.family} \cup (IF Has(E, "activity") THEN {"activity_coefficients"} ELSE {}))
+
 Panic == /\ Ev("Panic")
          /\ Report("C09.no_panic", <<E.model, E.kind, E.map, E.msg, l>>, FALSE)
          /\ cnt' = Bump(cnt, "panics")
 Init == l = 1 /\ cnt = NoCount
-Next == /\ (Transform \/ Panic)
+Next == /\ (Transform \/ Derived \/ Panic)
         /\ (l' > NRec => PrintT("STATS " \o ToJson(cnt')))
 TraceSpec == Init /\ [][Next]_vars
 ================================================================================
